@@ -163,6 +163,19 @@ theorem ent_waiter_read (h : EntInv m E) (hh : 0 < E.waiters + E.lsWaiters) (hw 
     m = true ∧ E.value.isSome = true ∧ E.destructed = 0 ∧ E.del2 = 0 ∧ E.del3 = 0 := by
   ent_tac
 
+/-- no call is in flight on the entry -/
+def quietEntry (E : Entry) : Prop :=
+  E.ctor = 0 ∧ E.failing = 0 ∧ E.waiters = 0 ∧ E.lsWaiters = 0 ∧ E.del2 = 0 ∧ E.del3 = 0
+
+theorem ent_closed_iff_unheld (h : EntInv m E) (hv : E.value.isSome = true) (hq : quietEntry E) :
+    (E.destructed = 1 ↔ E.holders = 0) ∧ (E.holders = 0 → m = false) := by
+  unfold quietEntry at hq
+  ent_tac
+
+theorem ent_quiet_unheld_unmapped (h : EntInv m E) (hq : quietEntry E) (hh : E.holders = 0) : m = false := by
+  unfold quietEntry at hq
+  ent_tac
+
 end entry
 
 /-! ### frame lemmas: how the helpers of the model act on `Inv` -/
